@@ -169,6 +169,16 @@ CHECKS = {
         "tweak, output key, parity and each control block (positive and negative verification, size, serialization) are compared with "
         "values computed from the specification's terms by independent tagged hashing.",
    note="tagged hashes as free constructors; bounded sequence length / depth; 128/129 limit by explicit chains."),
+ "C16": dict(
+   cat="model_checking", design="§4 C16",
+   technique="TLA+ register machine of script::Builder with the intended instruction list, an instruction-iterator model and script-number "
+             "codec, TLC-checked over all op sequences in bounds; template predicates as byte predicates over an enumerated neighbourhood; "
+             "both replayed on the real builder / predicates / Address::from_script",
+   text="TLC checks that iterating a built script yields exactly the added pushes and opcodes (with verify folding), that pushes use the "
+        "shortest length prefix and that script numbers round-trip; the emitted sequences are replayed comparing script bytes and both "
+        "iterators, and every script of the template neighbourhood is run through all predicates and Address::from_script (domain, "
+        "script_pubkey, text round trip) against the specification's byte predicates.",
+   note="bounded sequence length; data contents random within first-byte classes; template family of 9157 scripts."),
 }
 NA_PENDING = "check not built yet in this round (planned, see DESIGN.md §4)"
 
